@@ -33,7 +33,17 @@ ASSUMPTIONS = ["custom rules are registered on instances created with reset=True
 
 STEPS = ["default", "validate_method", "report", "custom_sec", "custom_prop", "custom_doc", "custom_plain",
          "create_objects", "set_cardinality", "saveload_xml", "saveload_json", "saveload_yaml",
-         "standalone_sec", "standalone_prop", "edit", "default", "custom_sec"]
+         "standalone_sec", "standalone_prop", "edit", "default", "custom_sec", "saveload_rdf", "custom_lib",
+         "custom_lib"]
+
+# the library's own rules, registered on an instance as a custom rule (class they apply to, function)
+LIB_RULES = [("section", "section_unique_ids"), ("section", "property_unique_ids"),
+             ("odML", "section_unique_ids"), ("odML", "document_unique_ids"),
+             ("section", "section_type_must_be_defined"), ("section", "section_unique_name_type"),
+             ("section", "property_unique_names"), ("property", "property_dependency_check"),
+             ("property", "property_values_check"), ("property", "property_values_string_check"),
+             ("section", "section_properties_cardinality"), ("property", "property_values_cardinality"),
+             ("section", "object_name_readable"), ("property", "object_required_attributes")]
 
 _IMPORT_REGISTRY = {k: frozenset(v) for k, v in Validation._handlers.items()}
 MARK = "C19 marker rule fired"
@@ -174,7 +184,7 @@ def body(case):
                     last_default = cur
                     if custom_seen and between:
                         nt = True
-                elif step.startswith("custom"):
+                elif step.startswith("custom") and step != "custom_lib":
                     v = Validation(doc, reset=True)
                     klass = {"custom_sec": "section", "custom_prop": "property", "custom_doc": "odML",
                              "custom_plain": None}[step]
@@ -189,6 +199,22 @@ def body(case):
                                              "reported %d marker issues of %d issues, expected exactly %d"
                                              % (where, klass, n_mark, sum(cur.values()), want), klass=str(klass)))
                     v.report()
+                    custom_seen = True
+                    between = False
+                elif step == "custom_lib":
+                    klass, fname = LIB_RULES[a % len(LIB_RULES)]
+                    runs = []
+                    for _ in range(2):
+                        v = Validation(doc, validate=False, reset=True)
+                        v.register_custom_handler(klass, getattr(oval, fname))
+                        v.run_validation()
+                        runs.append(issues_of(v))
+                    if runs[0] != runs[1]:
+                        diff = (runs[0] - runs[1]) + (runs[1] - runs[0])
+                        fails.append(failure("observe.not_repeatable", "%s: two custom validations with the "
+                                             "library rule %s of the unchanged document report different "
+                                             "issues: %r" % (where, fname, list(diff.items())[:2]), step=step,
+                                             rule=fname))
                     custom_seen = True
                     between = False
                 elif step == "create_objects":
@@ -213,9 +239,18 @@ def body(case):
                     path = os.path.join(tmp, "d%d.%s" % (i, fmt.lower()))
                     try:
                         odml.save(doc, path, fmt)
-                        odml.load(path, fmt, show_warnings=False)
+                        if fmt == "RDF":
+                            odml.load(path + ".rdf" if not os.path.exists(path) else path, fmt,
+                                      show_warnings=False)
+                        else:
+                            odml.load(path, fmt, show_warnings=False)
                     except Exception:
                         pass        # invalid documents are refused: not this property's subject
+                    if fmt == "RDF":
+                        # the RDF export resolves the links of the document first (finalize): the document
+                        # validated from here on is the resolved one
+                        last_default = None
+                        universe = snap.reachable([doc])
                     between = True
                 elif step == "standalone_sec":
                     if secs:
